@@ -488,3 +488,22 @@ def run(index, rep, tier):
                 bad = mnode
         rep.check(bad is None, "R01.15", fs.qualname, "stored encoding not re-derived after the tree was assembled", fn_where(fs, bad.ast if bad is not None else None), "from_split_bitmasks re-derives the encoding after the last structural change",
                   "Tree.from_split_bitmasks returns after `%s` without re-deriving `bipartition_encoding` from the finished tree: the list it carries was filled while nodes were being assembled (one entry per child folded in, leaf and root entries dropped), so it contains splits of no edge and lacks splits the tree has - symmetric_difference(t, rebuilt, is_bipartitions_updated=True) is non-zero for identical trees" % (norm_stmt(bad.stmt)[:60] if bad is not None else ""))
+
+    # ---- R01.16 a bipartition's masks are set by the bipartition
+    with rep.section("R01.16"):
+        rep.rule("R01.16", "a bipartition's masks are set by the bipartition: `_split_bitmask`, `_leafset_bitmask` and `_tree_leafset_bitmask` of a Bipartition are stored from outside the class only on an object the same function has just constructed (encode_bipartitions builds its mutable bipartitions by hand); everything else goes through the public properties, whose setters refuse a frozen (hashed) bipartition and recompute the normalisation bit with the tree leaf set - a forwarding setter on Edge / Node that writes the private field leaves `_lowest_relevant_bit` describing the old leaf set")
+        BF = {"_split_bitmask", "_leafset_bitmask", "_tree_leafset_bitmask", "_lowest_relevant_bit"}
+        n16 = 0
+        for m in sorted(index.modules):
+            if not m.startswith("dendropy.") or ".test" in m or ".legacy" in m:
+                continue
+            for fi in index.functions_in_module(m):
+                if fi.cls is not None and fi.cls.qualname == BIP:
+                    continue
+                built = {norm(t) for st in walk_no_nested(fi.node) if isinstance(st, ast.Assign) and isinstance(st.value, ast.Call) and call_name(st.value) == "Bipartition" for t in st.targets}
+                for w in writes_in(fi.node):
+                    if w.kind == "store" and w.attr in BF and w.base is not None and norm(w.base) != "self":
+                        n16 += 1
+                        rep.check(norm(w.base) in built, "R01.16", fi.qualname, "`%s.%s` stored from outside the bipartition" % (norm(w.base), w.attr), fn_where(fi, w.stmt), "%s: %s.%s of a bipartition built here" % (fi.name, norm(w.base), w.attr),
+                                  "%s stores `%s.%s` directly: the bipartition's own setter for this mask asserts that the object is still mutable (a compiled bipartition is hashed by its split mask and sits in sets and dictionaries) and, for the tree leaf set, recomputes the lowest relevant bit the split is normalised on - written from outside, a frozen bipartition changes under its hash and the next compile normalises against the bit of the OLD leaf set" % (fi.qualname, norm(w.base), w.attr))
+        rep.floor("R01.16", "stores of bipartition masks from outside the class", 1, n16)
